@@ -305,7 +305,11 @@ func (s *sink) SubmitSyncCommitteeSubscriptions(context.Context, []*apiv1.SyncCo
 
 // ---- signer double: deterministic non-zero signatures ----
 
-type fakeSigner struct{}
+type fakeSigner struct {
+	// onAttest is told the slot when the attester asks for its signatures, which it
+	// does on the goroutine of the attestation job, i.e. while that job executes.
+	onAttest func(slot uint64)
+}
 
 func sigOf(parts ...[]byte) phase0.BLSSignature {
 	h := sha256.New()
@@ -323,8 +327,11 @@ func sigOf(parts ...[]byte) phase0.BLSSignature {
 
 func u64(v uint64) []byte { return binary.LittleEndian.AppendUint64(nil, v) }
 
-func (fakeSigner) SignBeaconAttestations(_ context.Context, accounts []e2wtypes.Account, slot phase0.Slot, committeeIndices []phase0.CommitteeIndex,
+func (f fakeSigner) SignBeaconAttestations(_ context.Context, accounts []e2wtypes.Account, slot phase0.Slot, committeeIndices []phase0.CommitteeIndex,
 	blockRoot phase0.Root, _ phase0.Epoch, _ phase0.Root, _ phase0.Epoch, _ phase0.Root) ([]phase0.BLSSignature, error) {
+	if f.onAttest != nil {
+		f.onAttest(uint64(slot))
+	}
 	res := make([]phase0.BLSSignature, len(accounts))
 	for i, a := range accounts {
 		res[i] = sigOf(a.PublicKey().Marshal(), u64(uint64(slot)), u64(uint64(committeeIndices[i])), blockRoot[:])
